@@ -14,13 +14,14 @@ import (
 
 // Stmt is one statement; Body (the callee) is used by call / defer.
 type Stmt struct {
-	Op   string `json:"op"`             // print printarg call defer defervar deferbin deferdel deferpanic probe panic recover recoveris repanic setres setouter deferloop
+	Op   string `json:"op"`             // print printarg call defer defervar deferbin deferbinv deferdel deferpanic probe panic recover recoveris repanic setres setouter deferloop
 	S    string `json:"s,omitempty"`    // print / deferbin tag; panic / deferpanic / recoveris: value kind (str int err fault)
 	V    string `json:"v,omitempty"`    // panic / deferpanic / recoveris: value text (string, decimal, error text, fault kind)
 	N    int    `json:"n,omitempty"`    // setres / setouter value; deferdel / probe key; deferloop: iterations
 	Arg  string `json:"arg,omitempty"`  // call / defer / deferbin: "param", "res" or a decimal literal
 	Show bool   `json:"show,omitempty"` // call: print the result; recover: print the value
 	Form string `json:"form,omitempty"` // call / defer: how the callee is written: lit | named | method | pmethod; defervar: where the literal is held: var | field | slice; recoveris: eq | assert
+	Ns   []int  `json:"ns,omitempty"`   // deferbinv: the ints after the tag in the slice that is spread
 	Body []Stmt `json:"body,omitempty"`
 }
 
@@ -88,6 +89,12 @@ func bodySexp(b []Stmt) string {
 			items = append(items, common.L("recoveris", common.L(s.S, common.Q(s.V))))
 		case "deferbin":
 			items = append(items, common.L("deferbin", common.Q(s.S), argSexp(s.Arg)))
+		case "deferbinv":
+			ns := make([]string, len(s.Ns))
+			for i, n := range s.Ns {
+				ns[i] = fmt.Sprint(n)
+			}
+			items = append(items, common.L("deferbinv", common.Q(s.S), common.L(ns...)))
 		case "deferdel":
 			items = append(items, common.L("deferdel", fmt.Sprint(s.N)))
 		case "probe":
@@ -256,14 +263,19 @@ func (r *renderer) stmts(b *strings.Builder, body []Stmt, depth int, ind string)
 			case s.S == "int":
 				test = fmt.Sprintf("n, isT := x.(int); ok := isT && n == %s", s.V)
 			default:
-				// (x != nil first: in yaegi a type assertion of a nil interface{} to a native interface type panics with
-				// `reflect: call of reflect.Value.Type on zero Value` — any nil interface, not a matter of recover)
-				fmt.Fprintf(b, "%s{ x := recover(); ok := false; if x != nil { e, isT := x.(error); ok = isT && e.Error() == %q }; fmt.Println(\"is\", ok) }\n", ind, s.V)
-				continue
+				// (x may be nil: the assertion of a nil interface{} to an interface type is false, since bf66b2a in yaegi too)
+				test = fmt.Sprintf("e, isT := x.(error); ok := isT && e.Error() == %q", s.V)
 			}
 			fmt.Fprintf(b, "%s{ x := recover(); %s; fmt.Println(\"is\", ok) }\n", ind, test)
 		case "deferbin":
 			fmt.Fprintf(b, "%sdefer fmt.Println(%q, %s)\n", ind, s.S, goArg(s.Arg, depth))
+		case "deferbinv":
+			// a deferred variadic call written with an ellipsis
+			elts := []string{fmt.Sprintf("%q", s.S)}
+			for _, n := range s.Ns {
+				elts = append(elts, fmt.Sprint(n))
+			}
+			fmt.Fprintf(b, "%sdefer fmt.Println([]interface{}{%s}...)\n", ind, strings.Join(elts, ", "))
 		case "deferdel":
 			fmt.Fprintf(b, "%sdefer delete(gm, %d)\n", ind, s.N)
 		case "probe":
@@ -502,8 +514,14 @@ func (g *genCfg) body(depth int, role string) []Stmt {
 				s.Body = []Stmt{}
 			}
 			out = append(out, s)
-		case c < 57:
+		case c < 56:
 			out = append(out, Stmt{Op: "deferbin", S: g.newTag("b"), Arg: g.arg()})
+		case c < 58:
+			s := Stmt{Op: "deferbinv", S: g.newTag("v"), Ns: []int{}}
+			for k := g.pick(4); k > 0; k-- {
+				s.Ns = append(s.Ns, g.pick(90))
+			}
+			out = append(out, s)
 		case c < 61:
 			// defers in a loop: the same callee registered N times with the loop variable as argument
 			s := Stmt{Op: "deferloop", N: 2 + g.pick(2), S: g.newTag("l")}
@@ -629,7 +647,7 @@ func features(b []Stmt, in string, acc map[string]bool) {
 				}
 			}
 			features(s.Body, "deferred", acc)
-		case "deferbin", "deferdel", "setouter", "setres", "probe":
+		case "deferbin", "deferbinv", "deferdel", "setouter", "setres", "probe":
 			acc[s.Op] = true
 		}
 	}
